@@ -117,4 +117,4 @@ class watchdog:
 
 
 def step_timeout() -> float:
-    return float(os.environ.get("VERIF_STEP_TIMEOUT", "10"))
+    return float(os.environ.get("VERIF_STEP_TIMEOUT", "20"))
